@@ -1,11 +1,16 @@
-#!/bin/sh
-# usage: tools/try_seed.sh <dir with patch.diff, demo.py> <Cxx> [tier] [extra check args]
-# applies the patch to /repo, runs demo + the check, reverts. Never leaves /repo modified.
-D=$1; P=$2; T=${3:-quick}; shift 3 2>/dev/null
-cd /repo || exit 9
-git diff --quiet || { echo "repo dirty"; exit 9; }
-git apply "$D/patch.diff" || { echo "patch does not apply"; exit 9; }
-echo "--- demo with patch:"; (cd /repo && PYTHONPATH=/repo timeout 600 /venv/bin/python "$D/demo.py" >/tmp/p/demo.out 2>&1; echo "demo exit=$?"; tail -2 /tmp/p/demo.out | cut -c1-300)
-echo "--- check $P $T with patch:"; (cd /verif && timeout 3000 ./check $P --tier $T --no-evidence "$@" 2>&1 | grep -E "VIOLATION|violated|^$P|HARNESS|KNOWN" | cut -c1-260 | head -12)
-git checkout -- . ; git status --short | head -3
-echo "--- demo without patch:"; (cd /repo && PYTHONPATH=/repo timeout 600 /venv/bin/python "$D/demo.py" >/tmp/p/demo.out 2>&1; echo "demo exit=$?")
+#!/bin/bash
+# usage: tools/try_seed.sh <seed dir with patch.diff + demo.py> <Cxx> [tier] [extra check args]
+# Applies the patch to a scratch worktree of /repo (never to /repo itself), runs the demo and the check against
+# that worktree (PYTHONPATH precedes the /repo entry of the overlay .pth), then removes the worktree.
+D=$(readlink -f "$1"); P=$2; T=${3:-quick}; shift 3 2>/dev/null
+W=$(mktemp -d /tmp/seedwt.XXXXXX)
+trap 'git -C /repo worktree remove --force "$W" >/dev/null 2>&1; rm -rf "$W"; git -C /repo worktree prune' EXIT
+git -C /repo worktree add --detach "$W" HEAD >/dev/null 2>&1 || { echo "cannot create worktree"; exit 9; }
+# carry uncommitted changes of /repo's working tree over (checks are about the working tree)
+git -C /repo diff HEAD | git -C "$W" apply --allow-empty 2>/dev/null
+echo "--- demo without patch:"; (cd "$W" && PYTHONPATH="$W" timeout 600 /venv/bin/python "$D/demo.py" >/dev/null 2>&1; echo "demo exit=$?")
+git -C "$W" apply "$D/patch.diff" || { echo "PATCH DOES NOT APPLY"; exit 9; }
+echo "--- demo with patch:"; (cd "$W" && PYTHONPATH="$W" timeout 600 /venv/bin/python "$D/demo.py" >/dev/null 2>&1; echo "demo exit=$?")
+echo "--- check $P $T with patch:"
+cd /verif && PYTHONPATH="$W" timeout 3000 ./check "$P" --tier "$T" --no-evidence "$@" 2>&1 | grep -E "VIOLATION|violated|KNOWN-FINDING|HARNESS-ERROR|$P $T:" | cut -c1-260 | head -20
+echo "check exit=${PIPESTATUS[0]}"
